@@ -110,6 +110,9 @@ func (w *enqueueRequestForBatchRelease) Create(evt event.CreateEvent, q workqueu
 }
 
 func (w *enqueueRequestForBatchRelease) Delete(evt event.DeleteEvent, q workqueue.RateLimitingInterface) {
+	// a Rollout may be waiting on this BatchRelease (e.g. one that was still terminating
+	// when the next release adopted it): wake it up so that it creates a new one.
+	w.handleEvent(q, evt.Object)
 }
 
 func (w *enqueueRequestForBatchRelease) Generic(evt event.GenericEvent, q workqueue.RateLimitingInterface) {
